@@ -78,19 +78,31 @@ def check_macro_program(rng: random.Random, counters: Dict[str, Any]) -> Tuple[L
     gen = macrogen.generate(rng)
     n_eval = counters.get('monitor_evaluations', 0)
     stale = n_eval % 5 == 2
+    prefix: List[Tuple[str, Any]] = []
+    files_m, inlined = list(gen.files), gen.inlined
+    if n_eval % 4 == 1:
+        # a file of the repository's stl in front, under a short name of this assembly's own choosing, and one call of an stl macro
+        # that calls another one and declares a label (the parser caches the parsed stl prefix per process: nothing of an earlier
+        # assembly - its short names least of all - may show in this table)
+        short = ('s0', 'lib0', 'zz9', 'std')[(n_eval // 4) % 4]
+        prefix = [(short, c03.REPO_ROOT / 'flipjump' / 'stl' / 'runlib.fj')]
+        tail = 'stl.comp_if0 0, fjv_tail\nfjv_tail:\n;\n'
+        files_m[-1] = (files_m[-1][0], files_m[-1][1] + tail.replace('\n', '\r\n' if '\r\n' in files_m[-1][1] else '\n'))
+        inlined = inlined + tail
+        counters['programs_behind_a_cached_stl_prefix'] = counters.get('programs_behind_a_cached_stl_prefix', 0) + 1
     if stale:
         # the output paths already hold the files of an EARLIER assembly of the same sources at another width (same label names,
         # other addresses): the table on disk afterwards must be the one of this assembly
         other_w = {64: 32, 32: 64, 16: 32}.get(gen.w, 64)
-        c03.assemble_files(gen.files, other_w, 'macro16')
+        c03.assemble_files(files_m, other_w, 'macro16', prefix=prefix)
         counters['assemblies_over_existing_output_files'] = counters.get('assemblies_over_existing_output_files', 0) + 1
-    status_m, _, labels_m = c03.assemble_files(gen.files, gen.w, 'macro16', keep_existing=stale)
-    status_i, _, labels_i = c03.assemble_files([('f1', gen.inlined)], gen.w, 'inlined16')
+    status_m, _, labels_m = c03.assemble_files(files_m, gen.w, 'macro16', keep_existing=stale, prefix=prefix)
+    status_i, _, labels_i = c03.assemble_files([('f1', inlined)], gen.w, 'inlined16', prefix=prefix)
     counters['monitor_evaluations'] = n_eval + 1
     if status_m == 'ok' and n_eval % 3 == 0:
         # the table is a function of the sources: assembling them again in the same process gives the same table, synthetic
         # labels (macro start labels, wflip areas) included
-        status_again, _, labels_again = c03.assemble_files(gen.files, gen.w, 'macro16')
+        status_again, _, labels_again = c03.assemble_files(files_m, gen.w, 'macro16', prefix=prefix)
         counters['tables_compared_with_a_second_assembly'] = counters.get('tables_compared_with_a_second_assembly', 0) + 1
         if status_again != 'ok' or labels_again != labels_m or list(labels_again) != list(labels_m):
             missing = sorted(set(labels_m) ^ set(labels_again or {}))[:3]
@@ -116,8 +128,35 @@ def check_macro_program(rng: random.Random, counters: Dict[str, Any]) -> Tuple[L
             out.append(('label-address', f'label {name!r}: table says {labels_m[name]:#x}, the statement it precedes is at '
                                          f'{labels_i[unique]:#x}', replay))
             break
+    # every expansion is findable: the address where it starts carries a label (a source label, or the synthetic start label of
+    # this expansion or of one that opens at the same address) - also for the iterations of a rep
+    if not out:
+        by_address: Dict[int, List[str]] = {}
+        for name, address in labels_m.items():
+            by_address.setdefault(address, []).append(name)
+        for path, start_label, is_rep in gen.expansion_starts:
+            address = labels_i.get(start_label)
+            if address is None:
+                continue
+            counters['expansion_starts_checked'] = counters.get('expansion_starts_checked', 0) + 1
+            if is_rep:
+                counters['rep_expansion_starts_checked'] = counters.get('rep_expansion_starts_checked', 0) + 1
+            # (the assembler adds a start label only where the address has no label yet: ANY label there will do)
+            if not by_address.get(address):
+                out.append(('expansion-start-has-no-name', f'expansion {path!r} starts at {address:#x}; labels there: {by_address.get(address, [])[:3]}', replay))
+                break
     # every other user-level name must be one the model expects: no two expansions may collapse into one name
-    extra = [k for k in labels_m if k not in gen.expected_labels and not any(mk in k for mk in INTERNAL_MARKERS)]
+    if prefix and not out:
+        import re
+
+        known = {short for short, _ in prefix} | {short for short, _ in files_m}
+        for name in labels_m:
+            tags = {m.group(2) for m in re.finditer(r'(^|---)([A-Za-z0-9_]+):l\d+:', name)}
+            if tags - known:
+                out.append(('label-names-a-file-of-another-assembly', f'label {name!r} is tagged with {sorted(tags - known)}, the files of this assembly are {sorted(known)}', replay))
+                break
+    extra = [k for k in labels_m if k not in gen.expected_labels and not any(mk in k for mk in INTERNAL_MARKERS)
+             and ':stl.' not in k and k != 'fjv_tail']
     if extra and not out:
         out.append(('unexpected-label-name', f'table holds names the program does not declare: {extra[:3]}', replay))
     if len(set(gen.expected_labels)) != len(gen.expected_labels):
